@@ -12,14 +12,16 @@ from gen import novel as GN
 ID = "C04"
 PROPS = ["IsoVerif/Props/C04.lean", "IsoVerif/Props/C04Graph.lean", "IsoVerif/Props/C04Store.lean",
          "IsoVerif/Props/C04Paths.lean", "IsoVerif/Props/C03Paths.lean", "IsoVerif/Props/C04Join.lean",
-         "IsoVerif/Props/C04Terminals.lean"]
+         "IsoVerif/Props/C04Terminals.lean", "IsoVerif/Props/C04Simplify.lean"]
 TARGETS = ["IsoVerif.Props.C04", "IsoVerif.Props.C04Graph", "IsoVerif.Props.C04Store", "IsoVerif.Props.C04Paths",
-           "IsoVerif.Props.C03Paths", "IsoVerif.Props.C04Join", "IsoVerif.Props.C04Terminals"]
+           "IsoVerif.Props.C03Paths", "IsoVerif.Props.C04Join", "IsoVerif.Props.C04Terminals", "IsoVerif.Props.C04Simplify"]
 GEN_DEPS = ["Prims", "Enums", "Strategies", "Constants", "ModelConstruction"]
 LEVEL = "proof"
 RULE = ("in-process: seeded loci (exon lattice, annotated + unannotated isoforms, reads with splice-site jitter, truncation, "
         "multimappers, polyA flags; tiny loci with colliding introns) through the real IntronCollector / IntronGraph (traced "
-        "operation history replayed by the model), thread_introns, collapse_vertex_set, random operation histories on random "
+        "operation history replayed by the model AND simplify() computed by the model: graph after simplify(), collapse order, "
+        "operation multiset; exhaustive universe of tiny loci {0,1,3}^8 read multiplicities x 2 parameter sets; simplify() on "
+        "random inconsistent graph states), thread_introns, random operation histories on random "
         "graph states, the real construct_fl_isoforms / pre_filter / filter / assign / dump on a constructor whose heuristics are "
         "stubbed with generated answers; a case is non-trivial when the model returns a non-error, non-empty value and equals the "
         "implementation; distinct by (op, input).  Pipeline: synthetic genomes with unannotated isoforms under several "
@@ -30,7 +32,10 @@ TRUSTED = ["heuristics consulted by the decision block are parameters of the mod
            "IntronGraph performs; they do not change its behaviour"]
 ASSUMPTIONS = ["CPython int semantics = Lean Int; set/dict iteration order does not influence the compared (sorted) values",
                "float cut-offs (ratio * count) are modelled in exact thousandths; generated cases avoid products that are "
-               "exactly on a comparison boundary",
+               "exactly on a comparison boundary (graph_clustering_ratio: the model flags such comparisons, they are compared only "
+               "when the float ratio is a dyadic fraction)",
+               "a dead-end walk of simplify() that returns to a vertex of its path never ends in the real code (model answer "
+               "`cycle`; checked with a 1 s time limit)",
                "is_matching_assignment / assigner verdicts, get_intron_strand, detect_similar_isoforms and the coverage "
                "functions are inputs (assumption interface monitored by the pipeline oracle)",
                "transcript ids in one storage are pairwise distinct (id allocation is property C17)"]
@@ -264,6 +269,7 @@ def traced_graph(params, gene_info, reads, keep_on_error=False):
             before_inc = {(k, v) for k, s in self.incoming_edges.items() for v in s}
             n0 = len(self._log)
             self._n_simplify = n0
+            self.after_simplify = snapshot(self)
             super().attach_terminal_positions()
             # set.add on the edge sets is not interceptable: recover the attached terminal vertices by difference
             touches = self._log[n0:]
@@ -414,9 +420,63 @@ def graph_case_kw(rng, locus):
             "_p": pj, "_iso": iso, "_known_only": known_only, "_all_iso": [[list(e) for e in ex] for _, _, ex, _ in locus["isoforms"]]}
 
 
+def simp_params_json(params):
+    """the parameters IntronGraph.simplify() reads (ratio in exact thousandths)"""
+    return {"graph_clustering_distance": params.graph_clustering_distance,
+            "graph_clustering_ratio": milli(params.graph_clustering_ratio),
+            "singleton_adjacent_cov": params.singleton_adjacent_cov,
+            "min_novel_isolated_intron_abs": params.min_novel_isolated_intron_abs}
+
+
+def ratio_exact(params):
+    """count < count' * ratio is evaluated without rounding when the float ratio is a dyadic fraction (0.5)"""
+    from fractions import Fraction
+    return Fraction(params.graph_clustering_ratio) == Fraction(milli(params.graph_clustering_ratio), 1000)
+
+
+def canon_simplify(snap, ops):
+    """what is compared for a computed simplify(): the graph, the collapses in order, all operations as a multiset
+    (deletions and defaultdict insertions happen in set order in the code)"""
+    return {"graph": snap, "collapses": [o for o in ops if o[0] == "collapse"], "ops": sorted(json.dumps(o) for o in ops)}
+
+
+def run_simplify_cases(ctx, cases, vals, exact):
+    """cases of simplify_run / simplify_state / graph_full; a case the model flags as exactly on the ratio boundary is
+    compared only when the float product is exact"""
+    outs = ctx.driver.run([vlib.req("C04." + op, **kw) for op, kw in cases])
+    for (op, kw), mo, io, ex in zip(cases, outs, vals, exact):
+        ctx.evaluations += 1
+        ctx.count("op:" + op)
+        if isinstance(mo, dict) and "driver_error" in mo:
+            ctx.disagree(op, kw, mo, io)
+            continue
+        if isinstance(mo, dict) and mo.get("fragile") and not ex and not vlib.is_err(io):
+            ctx.count("simplify_on_float_boundary_skipped")
+            continue
+        ctx.traces_validated += 1
+        if vlib.is_err(mo):
+            ctx.count("model_error:" + op)
+            got = mo
+        elif op == "graph_full":
+            got = mo["graph"]
+        else:
+            got = canon_simplify(mo["graph"], mo["ops"])
+        if not vlib.same(got, io):
+            ctx.disagree(op, kw, got, io)
+        elif not vlib.is_err(mo):
+            n = mo.get("n_simplify", len(mo.get("ops", [])))
+            ctx.count("simplify_ops_computed", n)
+            if op != "graph_full":
+                for o in mo["ops"]:
+                    ctx.count("computed:" + o[0])
+            if n > 1:
+                ctx.mark_nontrivial([op, kw])
+
+
 def corr_collector_and_graph(ctx, loci):
     IG, GB, GI, PF, TP = _impl()
     cases, vals = [], []
+    simp_cases, simp_vals, simp_exact = [], [], []
     thread_cases, thread_vals = [], []
     fill_cases, fill_vals = [], []
     te_cases, te_vals = [], []
@@ -468,7 +528,15 @@ def corr_collector_and_graph(ctx, loci):
                                                        [FakeRead(r) for r in base["reads"]], keep_on_error=True))
             except Hang:
                 continue
+            if gx._exc is not None and not hasattr(gx, "_n_simplify") and hasattr(gx, "after_construct"):
+                # raised inside simplify() (KeyError of collapse_vertex): the computed simplify must fail too
+                simp_cases.append(("simplify_run", dict(base, simplify=simp_params_json(params))))
+                simp_vals.append({"error": "error", "exc": gx._exc})
+                simp_exact.append(ratio_exact(params))
             if gx._exc is not None and hasattr(gx, "_n_simplify"):
+                simp_cases.append(("simplify_run", dict(base, simplify=simp_params_json(params))))
+                simp_vals.append(canon_simplify(gx.after_simplify, gx._log[:gx._n_simplify]))
+                simp_exact.append(ratio_exact(params))
                 att_cases.append(("graph_attach", dict(base, ops=gx._log[:gx._n_simplify], apa_delta=params.apa_delta,
                                                        terminal_position_abs=params.terminal_position_abs,
                                                        terminal_position_rel=milli(params.terminal_position_rel),
@@ -476,6 +544,9 @@ def corr_collector_and_graph(ctx, loci):
                                                        known_ends=[[list(k), list(v)] for k, v in gx.terminal_known_positions.items() if v],
                                                        known_starts=[[list(k), list(v)] for k, v in gx.starting_known_positions.items() if v])))
                 att_vals.append({"error": "error", "exc": gx._exc})
+                simp_cases.append(("graph_full", dict(att_cases[-1][1], ops=[], simplify=simp_params_json(params))))
+                simp_vals.append({"error": "error", "exc": gx._exc})
+                simp_exact.append(False)
             continue
         cases.append(("construct", dict(base)))
         vals.append(after_construct)
@@ -489,6 +560,14 @@ def corr_collector_and_graph(ctx, loci):
                                                known_ends=[[list(k), list(v)] for k, v in g.terminal_known_positions.items() if v],
                                                known_starts=[[list(k), list(v)] for k, v in g.starting_known_positions.items() if v])))
         att_vals.append(snap)
+        # simplify() COMPUTED by the model: graph after simplify(), collapse sequence, operation multiset; and the whole
+        # constructor inside the model (computed simplify + modelled attachment)
+        simp_cases.append(("simplify_run", dict(base, simplify=simp_params_json(params))))
+        simp_vals.append(canon_simplify(g.after_simplify, ops[:g._n_simplify]))
+        simp_exact.append(ratio_exact(params))
+        simp_cases.append(("graph_full", dict(att_cases[-1][1], ops=[], simplify=simp_params_json(params))))
+        simp_vals.append(snap)
+        simp_exact.append(False)
         ctx.count("graph_ops_len", len(ops))
         for o in ops:
             ctx.count("traced:" + o[0])
@@ -574,6 +653,7 @@ def corr_collector_and_graph(ctx, loci):
     run_cases(ctx, thread_cases, thread_vals, lambda op, kw, mo: bool(mo))
     run_cases(ctx, fill_cases, fill_vals, lambda op, kw, mo: bool(mo) and (not isinstance(mo, dict) or bool(mo.get("fl"))))
     run_cases(ctx, te_cases, te_vals, lambda op, kw, mo: isinstance(mo, dict) and any(bool(v) for v in mo.values()))
+    run_simplify_cases(ctx, simp_cases, simp_vals, simp_exact)
     # attach_terminal_positions: cases whose float cut-off is exactly on a comparison boundary are not compared
     outs = ctx.driver.run([vlib.req("C04." + op, **kw) for op, kw in att_cases])
     for (op, kw), mo, io in zip(att_cases, outs, att_vals):
@@ -845,6 +925,201 @@ def corr_thread_universe(ctx):
     ctx.extra["thread_universe"] = {"neighbour_subsets": n_sub, "of": 64, "cases": len(cases),
                                     "grid": "candidate positions +-{0,1,delta,delta+1,apa_delta,apa_delta+1}, trusted in {F,T}"}
     run_cases(ctx, cases, vals, lambda op, kw, mo: isinstance(mo, dict) and any(bool(v) for v in mo.values()))
+
+
+# ------------------------------------------------------------------ simplify(): exhaustive tiny loci, arbitrary states
+
+SU_A0, SU_A1, SU_A2 = (100, 200), (102, 200), (100, 203)
+SU_B0, SU_B1 = (300, 400), (301, 400)
+SU_C0, SU_E0, SU_S0 = (500, 600), (700, 800), (20, 50)
+SU_TYPES = [[SU_A0, SU_B0, SU_C0], [SU_A1, SU_B0, SU_C0], [SU_A2, SU_B1], [SU_A0, SU_B1, SU_C0], [SU_A1],
+            [SU_A0, SU_B0, SU_C0, SU_E0], [SU_S0, SU_A0, SU_B0, SU_C0], [SU_B0, SU_C0]]
+SU_COUNTS = (0, 1, 3)
+SU_PARAMS = [{"preset": "default_ont", "delta": 0, "apa_delta": 10, "graph_clustering_distance": 4, "singleton_adjacent_cov": 2,
+              "min_novel_isolated_intron_abs": 2},
+             {"preset": "all", "delta": 1, "apa_delta": 10, "graph_clustering_distance": 3, "singleton_adjacent_cov": 3,
+              "min_novel_isolated_intron_abs": 1}]
+
+
+def su_read(rid, introns):
+    ex = [(introns[0][0] - 30, introns[0][0] - 1)] + [(introns[i][1] + 1, introns[i + 1][0] - 1) for i in range(len(introns) - 1)] + \
+         [(introns[-1][1] + 1, introns[-1][1] + 30)]
+    return {"id": rid, "introns": [list(i) for i in introns], "exons": [list(e) for e in ex], "mm": False, "strand": "+",
+            "polya": True, "polyt": False, "group": "g", "mapq": 60}
+
+
+def simplify_case_from_reads(reads, pj, known=()):
+    """-> (kw, canonical value of the real constructor up to simplify(), ratio exact?)"""
+    presets, _ = _PRESETS()
+    kw = {"known": sorted(list(k) for k in known), "delta": pj["delta"], "reads": reads,
+          "min_count": pj.get("min_novel_intron_count", presets[(pj["preset"], "auto")].min_novel_intron_count),
+          "_p": pj, "_iso": [], "_known_only": [list(k) for k in known]}
+    params = graph_params(pj)
+    kw["simplify"] = simp_params_json(params)
+    try:
+        g = with_timeout(lambda: traced_graph(params, make_gene_info([], kw["_known_only"], pj["delta"]),
+                                              [FakeRead(r) for r in reads], keep_on_error=True), secs=3)
+    except Hang:
+        return kw, {"error": "error", "exc": "hang"}, ratio_exact(params)
+    if hasattr(g, "_n_simplify"):
+        return kw, canon_simplify(g.after_simplify, g._log[:g._n_simplify]), ratio_exact(params)
+    return kw, {"error": "error", "exc": g._exc}, ratio_exact(params)
+
+
+def corr_simplify_universe(ctx):
+    """EXHAUSTIVE tiny loci: every multiplicity vector in {0,1,3}^8 over 8 read shapes on near-identical introns (bulges within
+    and outside the clustering distance, a singleton dead end, a singleton dead start, an isolated intron) x 2 parameter sets:
+    the real constructor up to simplify() against the COMPUTED simplify of the model"""
+    import itertools
+    q = ctx.tier == "quick"
+    cases, vals, exact = [], [], []
+    n = 0
+    for idx, vec in enumerate(itertools.product(SU_COUNTS, repeat=len(SU_TYPES))):
+        if q and idx % 9 != ctx.seed % 9:
+            continue
+        reads = []
+        for t, c in zip(SU_TYPES, vec):
+            for k in range(c):
+                reads.append(su_read("u%d" % len(reads), t))
+        if not reads:
+            continue
+        n += 1
+        for pj in SU_PARAMS:
+            kw, v, ex = simplify_case_from_reads(reads, pj, known=[SU_B0] if pj["preset"] == "all" else ())
+            cases.append(("simplify_run", kw))
+            vals.append(v)
+            exact.append(ex)
+    ctx.extra["simplify_universe"] = {"read_shapes": len(SU_TYPES), "multiplicities": list(SU_COUNTS), "loci": n,
+                                      "of": len(SU_COUNTS) ** len(SU_TYPES) - 1, "parameter_sets": len(SU_PARAMS), "cases": len(cases)}
+    run_simplify_cases(ctx, cases, vals, exact)
+
+
+def real_simplify_state(IG, state, sp, known):
+    """the real simplify() on an IntronGraph / IntronCollector pair in an arbitrary state, traced"""
+    vs, clustered, corr, discarded, out, inc = state
+    log = []
+    col = IG.IntronCollector.__new__(IG.IntronCollector)
+    col.gene_info = None
+    col.known_introns = set(known)
+    col.delta = 0
+    col.intron_correction_map = dict(corr)
+    col.discarded_introns = set(discarded)
+
+    class G(IG.IntronGraph):
+        def collapse_vertex(self, a, b):
+            self._log.append(["collapse", list(a), list(b)])
+            self._quiet += 1
+            try:
+                return super().collapse_vertex(a, b)
+            finally:
+                self._quiet -= 1
+    g = G.__new__(G)
+    g._log = log
+    g._quiet = 0
+    g.params = types.SimpleNamespace(debug=False, graph_clustering_distance=sp["graph_clustering_distance"],
+                                     graph_clustering_ratio=sp["graph_clustering_ratio"] / 1000.0,
+                                     singleton_adjacent_cov=sp["singleton_adjacent_cov"],
+                                     min_novel_isolated_intron_abs=sp["min_novel_isolated_intron_abs"])
+    g.intron_collector = col
+    col.clustered_introns = LogCounts(g, clustered)
+    eo, ei = defaultdict(set), defaultdict(set)
+    for a, b in out:
+        eo[a].add(b)
+    for a, b in inc:
+        ei[a].add(b)
+    g.outgoing_edges = LogEdges("out", log, eo)
+    g.incoming_edges = LogEdges("inc", log, ei)
+    g.edge_weights = defaultdict(int)
+    orig_discard, orig_simplify = col.discard, col.simplify_correction_map
+
+    def discard(intron):
+        if g._quiet == 0:
+            log.append(["discard", list(intron)])
+        g._quiet += 1
+        try:
+            return orig_discard(intron)
+        finally:
+            g._quiet -= 1
+
+    def simplify_correction_map():
+        log.append(["simplify_map"])
+        g._quiet += 1
+        try:
+            return orig_simplify()
+        finally:
+            g._quiet -= 1
+    col.discard, col.simplify_correction_map = discard, simplify_correction_map
+    try:
+        with_timeout(g.simplify, secs=1)
+    except Hang:
+        return {"error": "error", "exc": "hang"}
+    except KeyError:
+        return {"error": "error", "exc": "KeyError"}
+    return canon_simplify(snapshot(g), log)
+
+
+IDEM_WITNESS = {"reads": [su_read("u0", [SU_A1, SU_B0, SU_C0])] + [su_read("u%d" % k, [SU_A0, SU_B1, SU_C0]) for k in (1, 2, 3)],
+                "params": SU_PARAMS[0]}
+
+
+def corr_simplify_witness(ctx):
+    """`simplify_not_idempotent_witness` on the real IntronGraph: a second simplify() changes the graph again"""
+    IG, GB, GI, PF, TP = _impl()
+
+    class NoAttach(IG.IntronGraph):
+        def attach_terminal_positions(self):
+            pass
+    pj = IDEM_WITNESS["params"]
+    params = graph_params(pj)
+    g = NoAttach(params, make_gene_info([], [], pj["delta"]), [FakeRead(r) for r in IDEM_WITNESS["reads"]])
+    s1 = snapshot(g)
+    g.simplify()
+    s2 = snapshot(g)
+    k1 = [k for k, _ in s1["col"]["clustered"]]
+    k2 = [k for k, _ in s2["col"]["clustered"]]
+    ctx.extra["simplify_not_idempotent_on_real_code"] = {"clustered_after_first": k1, "clustered_after_second": k2}
+    expect = ([[100, 200], [102, 200], [301, 400], [500, 600]], [[100, 200], [301, 400], [500, 600]])
+    if (k1, k2) != expect:
+        ctx.disagree("witness:simplify_not_idempotent", {"reads": IDEM_WITNESS["reads"], "params": pj}, list(expect), [k1, k2])
+    # the model on the same two runs
+    kw, v, ex = simplify_case_from_reads(IDEM_WITNESS["reads"], pj)
+    cases = [("simplify_run", kw), ("simplify_state", {"graph": dict(s1, col=dict(s1["col"], known=[])), "simplify": kw["simplify"]})]
+    outs = ctx.driver.run([vlib.req("C04." + op, **k) for op, k in cases])
+    ctx.evaluations += 2
+    for (op, k), mo, want in zip(cases, outs, (s1, s2)):
+        ctx.count("op:" + op)
+        if vlib.is_err(mo) or "driver_error" in mo or mo.get("graph") != want:
+            ctx.disagree(op, k, mo, want)
+        else:
+            ctx.traces_validated += 1
+            ctx.mark_nontrivial([op, "idem_witness"])
+
+
+def corr_simplify_states(ctx, n):
+    """simplify() on random (also inconsistent: non-mirrored edge sets, correction chains, zero counts, cycles) graph states"""
+    IG, GB, GI, PF, TP = _impl()
+    rng = ctx.rng
+    cases, vals, exact = [], [], []
+    for _ in range(n):
+        vs, clustered, corr, discarded, out, inc = random_graph_state(rng)
+        if rng.random() < 0.01 and len(vs) >= 2:
+            a, b = vs[0], vs[1]      # a cycle of singletons: the dead-end walk of the real code never ends
+            clustered[a] = clustered[b] = 1
+            out |= {(a, b), (b, a)}
+            inc |= {(a, b), (b, a)}
+        if rng.random() < 0.7:
+            corr = {}
+        known = [v for v in vs if rng.random() < 0.2]
+        sp = {"graph_clustering_distance": rng.choice([3, 5]), "graph_clustering_ratio": rng.choice([500, 300]),
+              "singleton_adjacent_cov": rng.choice([1, 2, 3]), "min_novel_isolated_intron_abs": rng.choice([1, 2, 5])}
+        gj = {"col": {"known": sorted(list(k) for k in known), "clustered": sorted([list(k), c] for k, c in clustered.items()),
+                      "corr": sorted([list(k), list(x)] for k, x in corr.items()),
+                      "discarded": sorted(list(k) for k in discarded)},
+              "out": sorted([list(a), list(b)] for a, b in out), "inc": sorted([list(a), list(b)] for a, b in inc)}
+        cases.append(("simplify_state", {"graph": gj, "simplify": sp}))
+        vals.append(real_simplify_state(IG, (vs, dict(clustered), dict(corr), set(discarded), set(out), set(inc)), sp, known))
+        exact.append(sp["graph_clustering_ratio"] == 500)
+    run_simplify_cases(ctx, cases, vals, exact)
 
 
 # ------------------------------------------------------------------ TranscriptToGeneJoiner
@@ -1545,6 +1820,9 @@ def correspondence(ctx):
     corr_collector_and_graph(ctx, gen_loci(ctx, 150 if q else 1500))
     corr_graph_histories(ctx, 600 if q else 6000)
     corr_thread_universe(ctx)
+    corr_simplify_universe(ctx)
+    corr_simplify_states(ctx, 500 if q else 5000)
+    corr_simplify_witness(ctx)
     corr_edge_witnesses(ctx)
     corr_joiner(ctx, 400 if q else 4000)
     corr_strand(ctx, 200 if q else 2000)
@@ -1577,6 +1855,9 @@ def oracle_graph_case(kw):
     bad = sorted(v for v in graph_vertices(snap) if v not in obs)
     if bad:
         return "graph_vertex_unobserved", "vertices %s occur in no non-multimapper read" % bad[:4]
+    bad_simplify = oracle_simplify_clauses(g, graph_params(kw["_p"]), kw.get("known", []))
+    if bad_simplify:
+        return bad_simplify
     # terminal_vertices_spec: codes, side and origin of the attached terminal vertices
     ends = {r.corrected_exons[-1][1] for r in reads if not r.multimapper and r.corrected_exons}
     starts = {r.corrected_exons[0][0] for r in reads if not r.multimapper and r.corrected_exons}
@@ -1634,6 +1915,45 @@ def oracle_graph_case(kw):
             if any(i[0] > i[1] for i in inner) or any(chain[k][1] + 1 >= chain[k + 1][0] for k in range(len(chain) - 1)) or \
                     any(ex[k][1] >= ex[k + 1][0] for k in range(len(ex) - 1)) or any(e[0] > e[1] for e in ex):
                 return "path_not_monotone", "path %s passes the length guard with exons %s" % (list(pth), ex)
+    return None
+
+
+def oracle_simplify_clauses(g, params, known):
+    """Props/C04Simplify.lean on the REAL simplify() (traced): collapses stay inside the merge relation, every key of
+    clustered_introns that disappears was collapsed or discarded with a justification, supported introns survive"""
+    if not hasattr(g, "_n_simplify"):
+        return None
+    d = params.graph_clustering_distance
+    ops = g._log[:g._n_simplify]
+    for o in ops:
+        if o[0] == "collapse":
+            c, s_ = tuple(o[1]), tuple(o[2])
+            if c == s_ or not (abs(c[0] - s_[0]) < d and abs(c[1] - s_[1]) < d):
+                return "collapse_outside_merge_relation", "collapse_vertex(%s, %s) with graph_clustering_distance %d" % (c, s_, d)
+    before = {tuple(k): v for k, v in g.after_construct["col"]["clustered"]}
+    after = {tuple(k): v for k, v in g.after_simplify["col"]["clustered"]}
+    corr0 = {tuple(k) for k, _ in g.after_construct["col"]["corr"]}
+    disc0 = {tuple(k) for k in g.after_construct["col"]["discarded"]}
+    collapsed = {tuple(o[1]) for o in ops if o[0] == "collapse"}
+    discarded = {tuple(o[1]) for o in ops if o[0] == "discard"}
+    knownset = {tuple(k) for k in known}
+    for v in before:
+        if v not in after and v not in collapsed and v not in discarded and v not in corr0:
+            return "unjustified_drop", "intron %s left clustered_introns without collapse_vertex / discard" % (v,)
+    for v in discarded:
+        if v in knownset or before.get(v, 0) >= params.min_novel_isolated_intron_abs and v not in collapsed:
+            # a discarded intron is unannotated and below the cut-off (its count can only have grown since construct())
+            return "unjustified_drop", "intron %s (annotated: %s, count %d) was discarded" % (v, v in knownset, before.get(v, 0))
+    allv = set(before) | corr0 | disc0
+    for v, c in before.items():
+        if v in corr0 or v in disc0:
+            continue
+        if not (v in knownset or c >= params.min_novel_isolated_intron_abs):
+            continue
+        if any(u != v and abs(u[0] - v[0]) < d and abs(u[1] - v[1]) < d for u in allv):
+            continue
+        if v not in after or after[v] < c:
+            return "supported_intron_dropped", "intron %s (count %d, no sibling within %d) -> %s" % (v, c, d, after.get(v))
     return None
 
 
@@ -2016,7 +2336,8 @@ def pipeline_oracle(ctx, nrandom):
 
 
 INPROC = {"join_transcripts": oracle_joiner_case, "monoexon": oracle_monoexon_case, "graph_run": oracle_graph_case, "construct": oracle_graph_case, "cluster": oracle_graph_case,
-          "graph_ops": oracle_graph_ops_case, "construct_fl": oracle_fl_case, "store_run": oracle_store_case}
+          "graph_ops": oracle_graph_ops_case, "construct_fl": oracle_fl_case, "store_run": oracle_store_case,
+          "simplify_run": oracle_graph_case, "graph_full": oracle_graph_case}
 
 
 def oracle(ctx, disagreements, broken):
@@ -2054,6 +2375,22 @@ def oracle(ctx, disagreements, broken):
             continue
         if r:
             ctx.fail(r[0], {"level": "inproc", "op": "graph_run", "args": kw, "class": ""}, r[1])
+    # tiny loci of the simplify() universe (bulges, singleton dead ends, isolated introns), sampled
+    import itertools
+    vecs = list(itertools.product(SU_COUNTS, repeat=len(SU_TYPES)))
+    for vec in ctx.rng.sample(vecs, 120 if q else 1200):
+        reads = []
+        for t, c in zip(SU_TYPES, vec):
+            for k in range(c):
+                reads.append(su_read("u%d" % len(reads), t))
+        if not reads:
+            continue
+        pj = ctx.rng.choice(SU_PARAMS)
+        kw, _, _ = simplify_case_from_reads(reads, pj, known=[SU_B0] if pj["preset"] == "all" else ())
+        r = oracle_graph_case(kw)
+        n += 1
+        if r and r[0] != "hang":
+            ctx.fail(r[0], {"level": "inproc", "op": "simplify_run", "args": kw, "class": ""}, r[1])
     for _ in range(300 if q else 3000):
         kw = gen_fl_case(ctx.rng)
         r = oracle_fl_case(kw)
